@@ -264,10 +264,10 @@ def run_decode_impl(ctx, cases):
 
 def model_lines(ctx, lines):
     """run the driver, in parallel chunks when there is a lot to do"""
-    if len(lines) < 60000 or not ctx.have_model:
+    if len(lines) < 4000 or not ctx.have_model:
         return ctx.model(lines)
     from concurrent.futures import ThreadPoolExecutor
-    n = 8
+    n = 8 if len(lines) >= 60000 else 4
     size = (len(lines) + n - 1) // n
     chunks = [lines[i:i + size] for i in range(0, len(lines), size)]
     with ThreadPoolExecutor(n) as ex:
@@ -465,6 +465,7 @@ def eval_roundtrip(mod, rt, loop):
         mlines.append((mline, 'ok ' + E(cc.canon_msg(obj) if isinstance(obj, dict) else [cc.canon_msg(x) for x in obj]), 'encode'))
         if not cc.has_float(obj):
             mlines.append((f'dumps {E(obj)}', 'D' + b.decode(), 'dumps'))
+            mlines.append((f'loads {b.hex()}', 'L' + E(obj), 'loads'))
         o = decode_raw(mod, cls, b)
         line = outcome_line(mod, o)
         mlines.append((f'dec {pn} {E(obj)}', line, 'decode'))
@@ -502,6 +503,7 @@ def eval_roundtrip(mod, rt, loop):
         mlines.append((mline, 'ok ' + E(cc.canon_msg(obj) if isinstance(obj, dict) else [cc.canon_msg(x) for x in obj]), 'encode'))
         if not cc.has_float(obj):
             mlines.append((f'dumps {E(obj)}', 'D' + b.decode(), 'dumps'))
+            mlines.append((f'loads {b.hex()}', 'L' + E(obj), 'loads'))
         o = decode_raw(mod, cls, b)
         line = outcome_line(mod, o)
         mlines.append((f'dec {pn} {E(obj)}', line, 'decode'))
@@ -1063,7 +1065,7 @@ def depth_of(ctx):
 SCALE = {
     #            laws  grid values/member  random payloads  round trips  histories
     'quick':    (400,  QUICK_N,            4000,            3000,        600),
-    'drift':    (1000, 5,                  12000,           8000,        2000),
+    'drift':    (1000, QUICK_N,            30000,           8000,        3000),
     'thorough': (3000, None,               60000,           40000,       12000),
 }
 
